@@ -23,7 +23,8 @@ vars == <<cfg, done>>
 MClasses == {"low", "mid", "high", "weak_abs", "strong_abs"}
 XClasses == {"rayleigh", "small", "unit", "medium", "large", "xlarge", "huge"}
 Media == {"vacuum", "water", "oil"}
-Layering == {"homogeneous", "core_shell", "three_layers"}
+\* lossy_core_3: the class index in the CORE of three layers, two lossless coatings over it
+Layering == {"homogeneous", "core_shell", "three_layers", "lossy_core_3"}
 PolIdx == {0, 3, 6, 10}
 Configs == [m : MClasses, x : XClasses, medium : Media, layers : Layering, pol : PolIdx]
 
@@ -32,7 +33,7 @@ Relations(c) ==
    {"ext_is_sum", "abs_nonneg", "sca_pos", "g_range", "optical_theorem", "sca_integral", "g_integral"}
    \cup (IF IsReal(c) THEN {"abs_zero_real"} ELSE {})
    \cup (IF c.layers = "homogeneous" THEN {"textbook"} ELSE {})
-   \cup (IF c.layers = "homogeneous" /\ c.x = "rayleigh" THEN {"rayleigh"} ELSE {})
+   \cup (IF c.x = "rayleigh" THEN {"rayleigh"} ELSE {})     \* layered: quasi-static effective permittivity, layer by layer
    \cup (IF c.layers = "homogeneous" /\ c.x \in {"small", "unit", "medium", "large"} /\ c.pol \in {0, 6}
          THEN {"multisphere"} ELSE {})
 
